@@ -82,6 +82,8 @@ def _make_dir(m, z, idx):
 
 def replayer(name, args, kwargs, meta):
     m = _load()
+    if name == "action_n":
+        args = m.ADM[args[0]]
     pre_i, w1, p1, w2, w3, zoq, opt, idx_i = args
     line = m.build_line(pre_i, w1, p1, w2, w3)
     idx = m.INDEXES[idx_i]
@@ -114,6 +116,7 @@ def main():
     tier = sys.argv[1] if len(sys.argv) > 1 else "quick"
     seed = int(sys.argv[2]) if len(sys.argv) > 2 else 0
     rep = Report("C17", tier, seed)
+    os.environ["XH_MENUS"] = "thorough" if tier != "quick" else "quick"     # the tables of this process = the workers' tables
     m = _load()
     rep.describe(
         explanation=(
@@ -130,8 +133,9 @@ def main():
         stubs=["c.prepend_zdir over an in-memory FS; print captured", "note_utils.get_note_by_zid/get_notes_by_id answer from the "
                "harness index (real SQLite index in replay)", "init_from_template, subprocess.run, .zoq refresh recorded"],
         bounds=["%d prefixes x %d words x punctuation x second word x third word x .zo/.zoq x options x 3 index contents (unique owners; an ID on two pages; an ID twice on one page); "
-                "quick uses sub-menus (second word from 6, punctuation 2, third word 2, options none/-1/2; second index only "
-                "where a word is resolved through it; .zoq only with the primary-ZID prefix), thorough the full menus" % (
+                "quick uses sub-menus (second word from 6, punctuation 2, third word 2, options none/-1/2), thorough the full menus; "
+                "family action_n covers the WHOLE product of the tier's menus (real runner untraced per solver-chosen entry), "
+                "family action re-does the primary-ZID prefix and the bare continuation line with the runner under tracing" % (
                     len(m.PREFIXES), len(m.WORDS))],
         outside=["z:: cite keys and named-URL ([!u]) opening (external programs)", "query-line refresh in .zoq pages",
                  "lines with more than three words after the prefix; tabs"])
@@ -139,17 +143,29 @@ def main():
     T = 200 if not thorough else 420
     env0 = {"XH_MENUS": "thorough" if thorough else "quick"}
     conds = []
-    step = 1 if thorough else 4
-    for pre in range(len(m.PREFIXES)):
-        for lo in range(0, len(m.WORDS), step):
-            for zq in (("0", "1") if (thorough or pre == 4) else ("0",)):
+    # (1) the whole menu product of the tier, one table index per choice, the real runner untraced (ms per choice)
+    n_all = len(m.ADM)
+    step = 3500 if not thorough else 20000
+    for lo in range(0, n_all, step):
+        hi = min(n_all, lo + step)
+        conds.append(xh.Cond(H, "action_n", timeout=T * 2, env=dict(env0, XH_N="%d-%d" % (lo, hi)),
+                             cc={"ranges": [[lo, hi]], "max": 300 if not thorough else 1500},
+                             meta={"variant": "n[%d:%d]" % (lo, hi), "family": "action_n",
+                                   "bound": "menu product entries %d..%d of %d" % (lo, hi - 1, n_all)}))
+    # (2) the same obligation with the real runner under CrossHair's tracing (0.25 s per path): the primary-ZID prefix (.zo
+    #     and .zoq) and the bare continuation line
+    wstep = 1 if thorough else 4
+    for pre, zqs in ((4, ("0", "1")), (len(m.PREFIXES) - 1, ("0",))):
+        for lo in range(0, len(m.WORDS), wstep):
+            for zq in zqs:
                 conds.append(xh.Cond(H, "action", timeout=T,
-                                     env=dict(env0, XH_PREFIX=pre, XH_W1="%d-%d" % (lo, lo + step), XH_ZOQ=zq),
-                                     meta={"variant": "prefix%d-w1[%d:%d]-zoq%s" % (pre, lo, lo + step, zq), "family": "action",
-                                           "bound": "prefix %r, first word in %r, %s page" % (
-                                               m.PREFIXES[pre], m.WORDS[lo:lo + step], ".zoq" if zq == "1" else ".zo")}))
+                                     env=dict(env0, XH_PREFIX=pre, XH_W1="%d-%d" % (lo, lo + wstep), XH_ZOQ=zq),
+                                     meta={"variant": "prefix%d-w1[%d:%d]-zoq%s" % (pre, lo, lo + wstep, zq), "family": "action",
+                                           "bound": "traced; prefix %r, first word in %r, %s page" % (
+                                               m.PREFIXES[pre], m.WORDS[lo:lo + wstep], ".zoq" if zq == "1" else ".zo")}))
     conds.append(xh.Cond(H, "action", timeout=30, twin=True, env=dict(env0, XH_PREFIX=4, XH_W1="0-4", XH_ZOQ="0"),
                          meta={"variant": "prefix4-w1[0:4]-zoq0", "family": "twin"}))
+    conds.append(xh.Cond(H, "action_n", timeout=30, twin=True, env=dict(env0, XH_N="100-150"), meta={"variant": "n[100:150]", "family": "twin"}))
     results = xh.run_all(conds)
     handle_xh(rep, results, replayer)
     rep.sample({"line": m.build_line(5, 2, 2, 7, 1), "page": ".zo", "option": 2})
